@@ -195,6 +195,10 @@ def process_object(data, dic):
             raise JSONParseError(str(e) + f" in object with ID `{id_}'") from None
 
         obj = klass.from_json_safe(data, dic)
+        # a nested object may have been registered under the same ID while this
+        # object was being constructed
+        if id_ in dic and dic[id_] is not obj:
+            raise JSONParseError(f"Object with ID `{id_}' already exists")
         dic[id_] = obj
     else:
         raise JSONParseError(
